@@ -2900,3 +2900,175 @@ func ruleDispatchArgs(prog *Program, rep *Report, rels ...string) {
 	rep.Rules = append(rep.Rules, "K-dispatchargs: a switch whose clauses only choose among like-typed functions (each clause one assignment x = f_i(args)) passes the same argument text to every callee: the field-plan builders for tag, exact and lower-case keys are configured alike")
 	runSynRule(prog, rep, "K-dispatchargs", rels, matchDispatchArgs, fixtureDispatchArgs, 1, len(rels)) // one buildFields per package
 }
+
+// ---------------------------------------------------------------- F-narrow
+
+// matchFloatNarrow: inside a type-switch clause that matched float64 (the bound
+// variable is a float64) a conversion of that variable to float32 throws away 29
+// bits of the value; a test built on it ("is this float integral", "are these
+// equal") answers for the rounded number. Only clauses whose single matched
+// type is float64 (or a named type with that underlying type) are examined.
+func matchFloatNarrow(files []*ast.File, info *types.Info) (sites []synSite, examined int) {
+	for _, f := range files {
+		ast.Inspect(f, func(n ast.Node) bool {
+			ts, ok := n.(*ast.TypeSwitchStmt)
+			if !ok {
+				return true
+			}
+			for _, cl := range ts.Body.List {
+				cc := cl.(*ast.CaseClause)
+				bound := info.Implicits[cc]
+				if bound == nil || len(cc.List) != 1 {
+					continue
+				}
+				b, ok := bound.Type().Underlying().(*types.Basic)
+				if !ok || b.Kind() != types.Float64 {
+					continue
+				}
+				examined++
+				for _, st := range cc.Body {
+					ast.Inspect(st, func(k ast.Node) bool {
+						call, ok := k.(*ast.CallExpr)
+						if !ok || len(call.Args) != 1 {
+							return true
+						}
+						tv, ok := info.Types[call.Fun]
+						if !ok || !tv.IsType() {
+							return true
+						}
+						tb, ok := tv.Type.Underlying().(*types.Basic)
+						if !ok || tb.Kind() != types.Float32 {
+							return true
+						}
+						mentions := false
+						ast.Inspect(call.Args[0], func(m ast.Node) bool {
+							if id, ok := m.(*ast.Ident); ok && info.Uses[id] == bound {
+								mentions = true
+							}
+							return true
+						})
+						if mentions {
+							name := enclosingFuncName(f, call.Pos())
+							sites = append(sites, synSite{pos: call.Pos(), file: f, key: name + ":float64-narrowed",
+								msg: fmt.Sprintf("%s converts the float64 it matched to float32 (%s): the value is rounded to 24 bits before it is used", name, types.ExprString(call))})
+						}
+						return true
+					})
+				}
+			}
+			return true
+		})
+	}
+	return
+}
+
+const fixtureFloatNarrow = `package fixture
+
+func asInt(v any) (i int64, ok bool) {
+	ok = true
+	switch tv := v.(type) {
+	case float32:
+		i = int64(tv)
+		if float32(int64(tv)) != tv {
+			ok = false
+		}
+	case float64:
+		i = int64(tv)
+		if float32(int64(tv)) != float32(tv) {
+			ok = false
+		}
+	}
+	return
+}
+`
+
+func ruleFloatNarrow(prog *Program, rep *Report, rels ...string) {
+	rep.Rules = append(rep.Rules, "F-narrow: in a type-switch clause that matched float64 the matched value is never converted to float32: integrality and equality tests see all 53 bits")
+	runSynRule(prog, rep, "F-narrow", rels, matchFloatNarrow, fixtureFloatNarrow, 2, 4)
+}
+
+// ---------------------------------------------------------------- T-first
+
+// matchFindFirst: a range loop whose body is one `if cond { v = <loop variable> }` is a
+// search. With a break (or return) after the assignment it finds the first element that
+// satisfies cond, without one the last. The streaming matcher documents "the first target
+// that matches"; a search loop there that lost its break reports another target when two
+// targets overlap.
+func matchFindFirst(files []*ast.File, info *types.Info) (sites []synSite, examined int) {
+	for _, f := range files {
+		ast.Inspect(f, func(n ast.Node) bool {
+			rs, ok := n.(*ast.RangeStmt)
+			if !ok || len(rs.Body.List) != 1 {
+				return true
+			}
+			is, ok := rs.Body.List[0].(*ast.IfStmt)
+			if !ok || is.Else != nil || is.Init != nil || len(is.Body.List) == 0 {
+				return true
+			}
+			loopVars := map[types.Object]bool{}
+			for _, e := range []ast.Expr{rs.Key, rs.Value} {
+				if id, ok := e.(*ast.Ident); ok && info.Defs[id] != nil {
+					loopVars[info.Defs[id]] = true
+				}
+			}
+			as, ok := is.Body.List[0].(*ast.AssignStmt)
+			if !ok || as.Tok != token.ASSIGN || len(as.Lhs) != 1 || len(as.Rhs) != 1 {
+				return true
+			}
+			if !loopVars[useObj(info, as.Rhs[0])] {
+				return true
+			}
+			if _, isId := as.Lhs[0].(*ast.Ident); !isId {
+				return true
+			}
+			examined++
+			leaves := false
+			for _, st := range is.Body.List[1:] {
+				switch x := st.(type) {
+				case *ast.BranchStmt:
+					if x.Tok == token.BREAK || x.Tok == token.GOTO {
+						leaves = true
+					}
+				case *ast.ReturnStmt:
+					leaves = true
+				}
+			}
+			if !leaves {
+				name := enclosingFuncName(f, rs.Pos())
+				sites = append(sites, synSite{pos: rs.Pos(), file: f, key: name + ":search-without-break:" + types.ExprString(as.Lhs[0]),
+					msg: fmt.Sprintf("%s searches %s for an element that satisfies `%s` and keeps going after it found one: the last match is selected, not the first", name, types.ExprString(rs.X), types.ExprString(is.Cond))})
+			}
+			return true
+		})
+	}
+	return
+}
+
+const fixtureFindFirst = `package fixture
+
+type target struct{ path string }
+
+func first(ts []*target, p string) (tr *target) {
+	for _, t := range ts {
+		if t.path == p {
+			tr = t
+			break
+		}
+	}
+	return
+}
+
+func last(ts []*target, p string) (tr *target) {
+	for _, t := range ts {
+		if t.path == p {
+			tr = t
+		}
+	}
+	return
+}
+`
+
+func ruleFindFirst(prog *Program, rep *Report, rels ...string) {
+	rep.Rules = append(rep.Rules, "T-first: a range loop whose body is one `if cond { v = <loop variable> ... }` leaves the loop after the assignment (break, goto or return): the streaming matcher selects the first target that matches the current path")
+	runSynRule(prog, rep, "T-first", rels, matchFindFirst, fixtureFindFirst, 1, 1)
+}
